@@ -279,3 +279,439 @@ def C07(ctx):
     out = ctx.corr("vt ACGTN 3")
     if out != "err ValueError":
         ctx.fail("foreign character not reported as ValueError", line="vt ACGTN 3", observed=out)
+
+
+# =============================================================================== helpers
+def thresholds(k, gc):
+    """integer thresholds the float comparisons of LocalBioFilter reduce to (same float
+    expressions as the code; Lean model takes them as the configuration)."""
+    if gc is None:
+        return "-"
+    lo, hi = gc
+    return "%d,%d,%d" % (math.ceil(lo * k), math.floor(hi * k), math.floor(k - lo * k))
+
+
+def rand_cfg(rng, k, allow_bad=False):
+    run = rng.choice([None, None, 1, 2, 3, k - 1, k, k + 1 if allow_bad else k])
+    if run is not None and run < 1:
+        run = 1
+    gc = None
+    if rng.random() < 0.65:
+        lo = rng.choice([0.0, 0.1, 0.2, 0.25, 0.28, 0.3, 0.4, 0.5, 0.6, 0.8])
+        hi = rng.choice([0.5, 0.6, 0.7, 0.72, 0.75, 0.8, 0.9, 1.0])
+        if lo > hi:
+            lo, hi = hi, lo
+        gc = [lo, hi]
+    motifs = rng.choice([None, None, ["GC"], ["AAT", "CG"], ["ACGT"], ["T"], ["A", "C"], ["GATC"], ["AC", "TTT"]])
+    return run, gc, motifs
+
+
+def cfg_tokens(k, run, gc, motifs):
+    return "%d %s %s %s" % (k, "-" if run is None else run, "-" if motifs is None else ",".join(motifs),
+                            thresholds(k, gc))
+
+
+def mk(k, run, gc, motifs):
+    return BF.LocalBioFilter(observed_length=k, max_homopolymer_runs=run, gc_range=gc, undesired_motifs=motifs)
+
+
+def rows_to_graph(k, rows):
+    nib = []
+    for v, r in enumerate(rows):
+        b = 0
+        for j in range(4):
+            if r[j] >= 0:
+                b |= 1 << j
+        nib.append(b)
+    return gen.Graph(k, nib)
+
+
+def parse_acc_rows(txt):
+    return [[int(x) for x in r.split(",")] for r in txt.split(";")]
+
+
+def impl_coding_graph(ctx, k, mask, t, dtype=int):
+    """ccg through the protocol; returns (vertex list, Graph) or None on ValueError."""
+    out = ctx.corr("ccg %d %s %d" % (k, "".join(map(str, mask)), t), {"dtype": dtype})
+    r = parse_ok(out)
+    if r is None:
+        return out, None, None
+    vs = [] if r[0] == "-" else [int(x) for x in r[0].split(",")]
+    return out, vs, rows_to_graph(k, parse_acc_rows(r[1]))
+
+
+# =============================================================================== C02
+def C02(ctx):
+    rng = ctx.rng
+    known = {"ctor-accepts-run-eq-window"}
+    # sentence 3: constructor acceptance
+    for k in range(1, 7 if ctx.thorough else 5):
+        for run in [None] + list(range(1, k + 3)):
+            for motifs in (None, ["A" * k], ["A" * (k + 1)], ["AC"], ["ACGTA"]):
+                st, f = proto.guarded(lambda: mk(k, run, None, motifs))
+                key = "ctor k=%d run=%s motifs=%s" % (k, run, motifs)
+                decidable = (run is None or run < k) and (motifs is None or all(len(m) <= k for m in motifs))
+                ctx.corr("flt %s A 0" % cfg_tokens(k, run, None, motifs), {"gc": None})
+                if st == "ok" and not decidable:
+                    if run is not None and run == k and (motifs is None or all(len(m) <= k for m in motifs)):
+                        ctx.finding("ctor-accepts-run-eq-window",
+                                    "LocalBioFilter(observed_length=k, max_homopolymer_runs=k) is accepted "
+                                    "(a run rule no window can decide)")
+                    else:
+                        ctx.fail("constructor accepts a configuration that is not window-decidable", config=key)
+                ctx.case(key, st == "ok", "ctor")
+    # sentences 1-2
+    for it in range(ctx.n(60, 1500)):
+        k = rng.choice([2, 3, 3, 4] if not ctx.thorough else [2, 3, 3, 4, 4, 5])
+        user = rng.random() < 0.25
+        if user:
+            table = "".join(rng.choice("0111") for _ in range(4 ** k))
+            flt = proto.TableFilter(table)
+            valid_w = lambda w: table[gen.kmer_idx(w)] == "1"      # noqa: E731
+            cfgkey = "user:" + table
+            decidable, toks = False, None
+        else:
+            run, gc, motifs = rand_cfg(rng, k)
+            st, flt = proto.guarded(lambda: mk(k, run, gc, motifs))
+            if st != "ok":
+                continue
+            valid_w = lambda w: bool(flt.valid(w, only_last=False))   # noqa: E731
+            decidable = (run is None or run < k) and (motifs is None or all(len(m) <= k for m in motifs))
+            toks = cfg_tokens(k, run, gc, motifs)
+            cfgkey = "local:" + toks
+        st, mask = proto.guarded(lambda: SW.find_vertices(k, flt))
+        if st != "ok":
+            continue
+        mask = [int(x) for x in mask]
+        if user:
+            ctx.corr("fv %d %s" % (k, table))
+        for t in (1, 2, 3):
+            out, vs, g = impl_coding_graph(ctx, k, mask, t)
+            if g is None:
+                continue
+            for v in rng.sample(vs, min(3, len(vs))):
+                for _ in range(4):
+                    fast = rng.random() < 0.4 and not g.has_deg3_from(v)
+                    tbl = gen.rand_table(rng, k)
+                    bits = gen.rand_bits(rng, 40)
+                    key = "enc %s %s %d %s %d 0" % (g.token(), tbl_token(tbl), v, bits_token(bits), int(fast))
+                    r = parse_ok(ctx.corr(key))
+                    if r is None:
+                        continue
+                    s = proto.undash(r[0])
+                    full = gen.kmer(v, k) + s
+                    bad = [full[i:i + k] for i in range(len(full) - k + 1) if not valid_w(full[i:i + k])]
+                    if bad:
+                        ctx.fail("emitted strand has a window violating the filter", config=cfgkey, line=key,
+                                 strand=s, window=bad[0])
+                    if decidable:
+                        for whole in (s, full):
+                            if not flt.valid(whole, only_last=False):
+                                ctx.fail("whole-sequence check rejects an emitted strand", config=cfgkey, line=key,
+                                         strand=whole)
+                            ctx.corr("flt %s %s 0" % (toks, tok(whole)), {"gc": gc})
+                    if toks and rng.random() < 0.3 and len(full) >= k:
+                        i = rng.randrange(len(full) - k + 1)
+                        ctx.corr("flt %s %s 1" % (toks, full[:i + k]), {"gc": gc})
+                    ctx.case(cfgkey + "|" + key, len(s) >= 1, "user" if user else "local", "t=%d" % t,
+                             "decidable" if decidable else "not-decidable", "short" if len(s) < k else "long")
+    # threshold relation k - L <= A on a grid (the requirement behind D8)
+    top = 13 if ctx.thorough else 9
+    for k in range(1, top):
+        for lo100 in range(0, 101, 1 if ctx.thorough else 5):
+            lo = lo100 / 100
+            L, A = math.ceil(lo * k), math.floor(k - lo * k)
+            if k - L > A:
+                ctx.fail("short-strand A+T bound inconsistent with the window GC lower bound", k=k, lo=lo)
+            ctx.case("thr %d %s" % (k, lo), True, "threshold-grid")
+
+
+# =============================================================================== C03
+def C03(ctx):
+    rng = ctx.rng
+
+    def one(k, mask, t, dtype):
+        arr = np.array(mask, dtype=dtype)
+        before = arr.copy()
+        out, vs, g = impl_coding_graph(ctx, k, mask, t, dtype)
+        st, res = proto.guarded(lambda: SW.connect_coding_graph(k, arr, t))
+        if not (arr.dtype == before.dtype and np.array_equal(arr, before)):
+            ctx.fail("input mask modified", k=k, mask="".join(map(str, mask)), t=t)
+        S = gen.gfp_mask(k, mask, t)
+        key = "ccg %d %s %d" % (k, "".join(map(str, mask)), t)
+        if not any(S):
+            if out != "err ValueError":
+                ctx.fail("empty result not reported as ValueError", line=key, observed=out)
+        else:
+            exp = gen.induced(k, S)
+            if g is None or g.nib != exp.nib or vs != [v for v in range(4 ** k) if S[v]]:
+                ctx.fail("result is not the largest closed sub-graph", line=key, observed=out,
+                         expected_vertices=[v for v in range(4 ** k) if S[v]])
+        removed = sum(mask) - sum(S)
+        ctx.case(key + str(dtype), 0 < sum(mask) < 4 ** k and removed > 0, "t=%d" % t, dtype.__name__,
+                 "empty" if not any(S) else "nonempty")
+        return S
+
+    def extra(k, mask, t, S):
+        # monotonicity
+        sub = [b if rng.random() < 0.8 else 0 for b in mask]
+        S2 = one(k, sub, t, int)
+        if any(x and not y for x, y in zip(S2, S)):
+            ctx.fail("a smaller mask yields a larger graph", k=k, mask="".join(map(str, mask)), t=t)
+        # latter-map route for t >= 2
+        if t >= 2 and any(S):
+            valid = gen.induced(k, mask)
+            lm = proto.enc_lmap({u: [succ(u, j, k) for j in valid.live(u)] for u in valid.vertices()})
+            o = ctx.corr("l2a %s %d %d" % (lm, k, t))
+            if o != "ok " + proto.show_acc(gen.induced(k, S).rows()):
+                ctx.fail("latter-map trimming gives a different graph", k=k, t=t, mask="".join(map(str, mask)), observed=o)
+
+    if ctx.thorough:
+        # exhaustive order-2 masks, split over parts and (by seed) over runs
+        for idx in range(ctx.part, 1 << 16, ctx.nparts):
+            if idx % 4 != ctx.seed % 4:
+                continue
+            mask = [(idx >> i) & 1 for i in range(16)]
+            for t in (1, 2, 3, 4):
+                one(2, mask, t, bool if idx % 2 else int)
+    for it in range(ctx.n(500, 12000)):
+        k = rng.choice([1, 2, 2, 3, 3] if not ctx.thorough else [2, 3, 3, 4, 5])
+        t = rng.choice([1, 1, 2, 2, 3, 4])
+        p = {1: rng.choice([0.2, 0.4, 0.6, 0.8]), 2: rng.choice([0.5, 0.7, 0.9]), 3: rng.choice([0.85, 0.95, 1.0]),
+             4: rng.choice([0.97, 1.0])}[t]
+        mask = gen.rand_mask(rng, k, p)
+        if rng.random() < 0.1:      # structured: a pure cycle plus a branching region (t = 1 cascade)
+            mask = [0] * 4 ** k
+            mask[0] = 1
+            for v in rng.sample(range(4 ** k), min(4 ** k, 6)):
+                mask[v] = 1
+        S = one(k, mask, t, rng.choice([bool, int]))
+        if rng.random() < 0.3:
+            extra(k, mask, t, S)
+
+
+# =============================================================================== C04
+def C04(ctx):
+    rng = ctx.rng
+    for it in range(ctx.n(250, 8000)):
+        k = rng.choice([1, 2, 2, 3] if not ctx.thorough else [2, 3, 3, 4, 5])
+        t = rng.choice([1, 1, 1, 2, 2, 3, 4])
+        p = {1: rng.choice([0.3, 0.5, 0.7]), 2: rng.choice([0.6, 0.8, 0.95]), 3: 0.95, 4: 1.0}[t]
+        mask = gen.rand_mask(rng, k, p)
+        out, vs, g = impl_coding_graph(ctx, k, mask, t)
+        if g is None:
+            continue
+        rows = np.array(g.rows(), dtype=int)
+        for v in rng.sample(vs, min(3, len(vs))):
+            for _ in range(3):
+                fast = rng.random() < 0.4 and not g.has_deg3_from(v)
+                bits = gen.rand_bits(rng, 512 if ctx.thorough and rng.random() < 0.05 else 48)
+                L = len(bits)
+                budget = 2 * (L * g.n + 1) + 2
+                proxy = Counting(rows, budget)
+                tbl = gen.rand_table(rng, k)
+                key = "enc %s %s %d %s %d 0" % (g.token(), tbl_token(tbl), v, bits_token(bits), int(fast))
+                e = ctx.corr(key, {"acc": proxy})
+                r = parse_ok(e)
+                if r is None:
+                    ctx.fail("encode does not return within L*|V| steps / reports a missing out-degree on a "
+                             "generated graph", line=key, observed=e, reads=proxy._box[0], budget=budget, t=t)
+                    continue
+                s = proto.undash(r[0])
+                if not g.is_walk(v, s):
+                    ctx.fail("emitted strand is not a walk of the generated graph", line=key, strand=s)
+                    continue
+                if len(s) > L * g.n:
+                    ctx.fail("more steps than message length times vertex count", line=key, steps=len(s))
+                degs = g.degrees_seen(v, s)
+                val = int("".join(map(str, bits)) or "0", 2)
+                if s:
+                    if degs[-1] < 2:
+                        ctx.fail("last nucleotide carries no information", line=key, strand=s)
+                    if not fast:
+                        prod = 1
+                        for d in degs[:-1]:
+                            prod *= d
+                        if prod > val:
+                            ctx.fail("product of out-degrees before the last step exceeds the message value",
+                                     line=key, strand=s, product=prod, value=val)
+                        if t >= 2 and len(s) > L:
+                            ctx.fail("more than L nucleotides on a threshold-2 graph", line=key, strand=s)
+                        if all(m for m in mask) and len(s) > (L + 1) // 2:
+                            ctx.fail("more than ceil(L/2) nucleotides on the complete graph", line=key, strand=s)
+                    else:
+                        carried = sum(2 if d == 4 else 1 if d == 2 else 0 for d in degs)
+                        if carried not in (L, L + 1):
+                            ctx.fail("fast mode: bits carried is not L or L+1", line=key, carried=carried, L=L)
+                elif (val != 0 and not fast) or (fast and L != 0):
+                    ctx.fail("empty strand for a non-zero message", line=key)
+                ctx.case(key, val > 0 and any(d > 1 for d in degs), "t=%d" % t, "fast" if fast else "normal",
+                         *(["deg1-run"] if 1 in degs else []))
+
+
+# =============================================================================== C08 C09 C10
+def rep_line(g, s, v, chk, indel, heap):
+    return "rep %s %s %d %d %s %d %d" % (g.token(), tok(s), v, g.k, chk, int(indel), heap)
+
+
+def parse_rep(out):
+    r = parse_ok(out)
+    if r is None:
+        return None
+    cands = [] if r[0] == "-" else [proto.undash(x) for x in r[0].split(",")]
+    return cands, int(r[1]), r[2] == "1", int(r[3]), int(r[4])
+
+
+def C08(ctx):
+    rng = ctx.rng
+    for it in range(ctx.n(120, 5000)):
+        k = rng.choice([1, 2, 2, 3] if not ctx.thorough else [1, 2, 2, 3, 3, 4])
+        g, t = gen.rand_coding_graph(rng, k)
+        vs = g.vertices()
+        v = rng.choice(vs)
+        multi = rng.random() < 0.4
+        n = (3 * k + (3 * k + 2) * rng.choice([1, 2, 3]) + rng.randrange(4)) if multi else (3 * k + rng.randrange(1, 8))
+        w = gen.rand_walk(rng, g, v, n)
+        if len(w) < n:
+            continue
+        lo, hi = k, n - 2 * k
+        if hi <= lo:
+            continue
+        m = rng.choice([2, 4, 6])
+        wchk = oracle.vt_ref(w, m)
+        if not multi:
+            edits = [[e] for e in gen.all_single_edits(w, lo, hi)]
+            if not ctx.thorough and len(edits) > 40:
+                edits = rng.sample(edits, 40)
+        else:
+            edits = []
+            for _ in range(6):
+                ps, p = [], lo + rng.randrange(3)
+                while p < hi and len(ps) < 3:
+                    ps.append(p)
+                    p += 3 * k + 2 + rng.randrange(3)
+                if len(ps) >= 2:
+                    edits.append([gen.rand_edit(rng, w, p) for p in ps])
+        for es in edits:
+            c = w
+            for e in sorted(es, key=lambda e: -e[1]):
+                c = gen.apply_edit(c, e)
+            only_subst = all(e[0] == "S" for e in es)
+            for chk in ("None", wchk):
+                for indel in ([1, 0] if only_subst else [1]):
+                    if chk != "None" and rng.random() < 0.5:
+                        continue
+                    key = rep_line(g, c, v, chk, indel, 100000)
+                    out = ctx.corr(key)
+                    r = parse_rep(out)
+                    if r is None:
+                        ctx.fail("repair raised", line=key, observed=out)
+                        continue
+                    cands, det = r[0], r[1]
+                    walk = g.is_walk(v, c)
+                    if len(es) == 1:
+                        if walk and det != 0:
+                            ctx.fail("edit leaving a walk reported as detected", line=key, observed=out)
+                        if not walk and det != 1:
+                            ctx.fail("single interior edit not detected exactly once", line=key, original=w,
+                                     edit=list(es[0]), observed=out)
+                    if det == len(es) and w not in cands:
+                        ctx.fail("original strand not among the candidates", line=key, original=w,
+                                 edits=[list(e) for e in es], observed=out)
+                    ctx.case(key, det >= 1, "multi" if multi else "single", *("edit-" + e[0] for e in es),
+                             "check" if chk != "None" else "nocheck", "indel" if indel else "noindel",
+                             "k=%d" % k)
+
+
+def C09(ctx):
+    rng = ctx.rng
+    for it in range(ctx.n(500, 25000)):
+        k = pick_k(ctx, (1, 2, 2, 3), (1, 2, 2, 3, 3, 4))
+        g = rng.choice([gen.rand_arc_subset, gen.rand_profile_graph, lambda r, kk: gen.rand_coding_graph(r, kk)[0]])(rng, k)
+        vs = g.vertices() or [0]
+        v = rng.choice(vs)
+        n = rng.choice([k, k + 1, 2 * k + 1, 10, 18, 30])
+        w = gen.rand_walk(rng, g, v, n)
+        variants = []
+        if len(w) >= k:
+            variants.append(("clean", w))
+            c = w
+            for _ in range(rng.choice([1, 2, 3])):
+                if len(c) > k:
+                    c = gen.apply_edit(c, gen.rand_edit(rng, c))
+            if len(c) >= k:
+                variants.append(("corrupted", c))
+        variants.append(("random", gen.rand_dna(rng, max(n, k))))
+        for kind, s in variants:
+            for chkkind in ("none", "right", "wrong"):
+                if chkkind != "none" and rng.random() < 0.5:
+                    continue
+                chk = {"none": "None", "right": oracle.vt_ref(w if len(w) >= k else s, 4),
+                       "wrong": "G" + oracle.vt_ref(s, 4)[1:] if oracle.vt_ref(s, 4)[0] != "G" else "T" + oracle.vt_ref(s, 4)[1:]}[chkkind]
+                indel = rng.randrange(2)
+                heap = rng.choice([0, 1, 10, 1000, 5000])
+                key = rep_line(g, s, v, chk, indel, heap)
+                out = ctx.corr(key)
+                r = parse_rep(out)
+                if r is None:
+                    ctx.fail("repair raised", line=key, observed=out)
+                    continue
+                cands, det = r[0], r[1]
+                if g.is_walk(v, s):
+                    ok = chk == "None" or oracle.vt_ref(s, len(chk)) == chk
+                    if cands != ([s] if ok else []) or det != 0:
+                        ctx.fail("clean strand not returned alone with zero detections", line=key, observed=out)
+                if cands != sorted(set(cands)):
+                    ctx.fail("candidate list not sorted / duplicate-free", line=key, observed=out)
+                if chk != "None":
+                    badc = [x for x in cands if oracle.vt_ref(x, len(chk)) != chk]
+                    if badc:
+                        ctx.fail("candidate does not reproduce the supplied check", line=key, candidate=badc[0])
+                ctx.case(key, det >= 1 or kind == "clean", kind, "chk-" + chkkind, "heap=%d" % heap,
+                         "detected" if det else "undetected")
+
+
+def C10(ctx):
+    rng = ctx.rng
+    for it in range(ctx.n(500, 25000)):
+        k = pick_k(ctx, (1, 2, 2, 3), (1, 2, 2, 3, 3, 4))
+        g = rng.choice([gen.rand_arc_subset, gen.rand_profile_graph, lambda r, kk: gen.rand_coding_graph(r, kk)[0]])(rng, k)
+        vs = g.vertices() or [0]
+        v = rng.choice(vs + [rng.randrange(g.n)])
+        n = rng.choice([k, k + 1, 2 * k, 3 * k + 1, 12, 25, 60, 200 if ctx.thorough else 40])
+        kind = rng.choice(["bad-first", "last-window", "random", "edited", "edited"])
+        w = gen.rand_walk(rng, g, v, n)
+        if kind == "random" or len(w) < max(n, 1):
+            s = gen.rand_dna(rng, max(n, k))
+            kind = "random"
+        elif kind == "bad-first":
+            dead = [c for c in NUC if NUC.index(c) not in g.live(v)]
+            s = (rng.choice(dead) if dead else "A") + w[1:]
+        elif kind == "last-window":
+            p = len(w) - 1 - rng.randrange(min(k, len(w)))
+            s = gen.apply_edit(w, gen.rand_edit(rng, w, p))
+        else:
+            s = w
+            for _ in range(rng.choice([1, 2, 4, 8])):
+                if len(s) > k:
+                    s = gen.apply_edit(s, gen.rand_edit(rng, s))
+        if len(s) < k:
+            continue
+        indel, heap = rng.randrange(2), rng.choice([0, 10, 1000, 5000])
+        chk = rng.choice(["None", "None", "ACG"])
+        budget = 4 * len(s) + 80 * k * (len(s) + k) + 50
+        proxy = Counting(np.array(g.rows(), dtype=int), budget)
+        key = rep_line(g, s, v, chk, indel, heap)
+        out = ctx.corr(key, {"acc": proxy})
+        r = parse_rep(out)
+        if r is None:
+            ctx.fail("repair does not return a (candidates, statistics) pair within the look-up budget", line=key,
+                     observed=out, reads=proxy._box[0], budget=budget)
+        else:
+            st, res = proto.guarded(lambda: SW.repair_dna(s, np.array(g.rows(), dtype=int), v, k, vt_check=None if chk == "None" else chk,
+                                                          has_indel=bool(indel), heap_size=heap))
+            shape_ok = (st == "ok" and isinstance(res, tuple) and len(res) == 2 and isinstance(res[0], list)
+                        and all(isinstance(x, str) for x in res[0]) and isinstance(res[1], tuple) and len(res[1]) == 4)
+            if not shape_ok:
+                ctx.fail("result is not a well-formed (candidates, statistics) pair", line=key)
+        ctx.case(key, r is not None and r[1] >= 1, kind, "k=%d" % k)
